@@ -113,40 +113,77 @@ def _adopt_known(rep):
             rep.known.append(k)
 
 
+def _par(jobs, n):
+    """run thunks concurrently (each TLC start costs tens of seconds on a loaded machine); results in order, first error re-raised"""
+    from concurrent.futures import ThreadPoolExecutor
+    with ThreadPoolExecutor(max_workers=max(1, n)) as ex:
+        futs = [ex.submit(j) for j in jobs]
+        return [f.result() for f in futs]
+
+
 def run_part(pid, tier, rep):
     quick = tier == "quick"
     wd = vlib.workdir(pid)
     _adopt_known(rep)
-    for name, consts, cfg in ([] if os.environ.get("X2_SKIP_MC") else mc_parts(quick)):
+    ncpu = vlib.NCPU
+    # --- the design, model checked (parts run side by side, each in its own work directory)
+    mcs = [] if os.environ.get("X2_SKIP_MC") else mc_parts(quick)
+
+    def mc_job(name, consts, cfg):
         need = ["Rcvd", "Advance", "Poll", "Gen", "Sent"] + (["Discard"] if name == "hs" else [])
-        st = vlib.tlc_mc(pid, "MC_AckPolicy", cfg, consts, need_actions=need)
+        return lambda: vlib.tlc_mc("%s/mc_%s" % (pid, name), "MC_AckPolicy", cfg, consts, need_actions=need,
+                                   workers=max(1, ncpu // max(1, len(mcs))))
+    for (name, _, _), st in zip(mcs, _par([mc_job(*m) for m in mcs], len(mcs))):
         rep.add_mc("ackpolicy/MC_AckPolicy/" + name, st)
-    # one validation pass over the recorded runs of all parts (each TLC start costs ~20-60 s on a loaded machine)
+    # --- environment schedules, generated side by side
+    parts = gen_parts(quick) + sim_parts(quick)
+
+    def gen_job(part, consts, sim):
+        tag = part.replace("/", "_")
+        beh = os.path.join(wd, "beh_ackpolicy_%s.ndjson" % tag)
+        return lambda: (vlib.tlc_gen("%s/gen_%s" % (pid, tag), "Gen_AckPolicy", GEN_CFG, consts, beh, simulate=sim,
+                                     workers=max(1, ncpu // len(parts))), beh)
+    gens = _par([gen_job(*p) for p in parts], min(ncpu, len(parts)))
+    # --- executed on the real objects; one validation pass over the recorded runs of all parts
     alltrace = os.path.join(wd, "trace_ackpolicy_all.ndjson")
-    first = None
-    with open(alltrace, "w") as allf:
-        for part, consts, sim in gen_parts(quick) + sim_parts(quick):
-            tag = ("ackpolicy/" + part).replace("/", "_")
-            beh = os.path.join(wd, "beh_%s.ndjson" % tag)
-            g = vlib.tlc_gen(pid, "Gen_AckPolicy", GEN_CFG, consts, beh, simulate=sim)
+    sample = os.path.join(wd, "trace_ackpolicy_diag.ndjson")
+    with open(alltrace, "w") as allf, open(sample, "w") as sf:
+        for (part, consts, sim), (g, beh) in zip(parts, gens):
             if sim:
                 g["behaviours"] = thin(beh, 2)
             rep.add_mc("ackpolicy/Gen_AckPolicy/" + part, g)
-            trace = os.path.join(wd, "trace_%s.ndjson" % tag)
+            trace = os.path.join(wd, "trace_ackpolicy_%s.ndjson" % part.replace("/", "_"))
             vlib.vhx("vh-ackpolicy", ["replay", beh, trace])
+            nruns = 0
             with open(trace) as f:
                 for line in f:
                     allf.write(line)
-            first = first or trace
-    common.validate(rep, pid, COMP, "Trace_AckPolicy", TRACE_CFG, alltrace, "ackpolicy/traces", is_hit, sig=signature, constants=REAL)
-    # diagnostics (never a violation): SHOULDs of RFC 9000 13.2 and agreement of the implementation with the design, on the first part
-    r = vlib.validate_traces(pid, "Trace_AckPolicy", DIAG_CFG, first, constants=REAL, tag="diag", max_soft=100000)
-    diag = {}
+                    nruns += '"ev":"reset"' in line
+                    if nruns <= (400 if quick else 4000):
+                        sf.write(line)
+            os.remove(trace)
+
+    def main_job():
+        return vlib.validate_traces(pid, "Trace_AckPolicy", TRACE_CFG, alltrace, constants=REAL, max_soft=1000000)
+
+    def diag_job():
+        # diagnostics (never a violation): SHOULDs of RFC 9000 13.2 and agreement of the implementation with the design, on a sample
+        return vlib.validate_traces(pid + "/diag", "Trace_AckPolicy", DIAG_CFG, sample, constants=REAL, nchunks=1, max_soft=1000000)
+    r, rd = _par([main_job, diag_job], 2)
+    part = "ackpolicy/traces"
+    rep.add_traces(part, r["runs"], common.count_nontrivial(alltrace, is_hit), r["events"])
+    with open(alltrace) as f:
+        lines = [l for _, l in zip(range(7), f)]
+    rep.sample({"part": part, "first_events": [json.loads(x) for x in lines]})
     for rej in r["rejected"]:
+        sg, what = signature(pid, COMP, rej)
+        rep.violation(sg, what, {"component": COMP, "module": "Trace_AckPolicy", "rejected_at": rej["at"], "reason": rej["reason"], "trace": rej["run"]})
+    diag = {}
+    for rej in rd["rejected"]:
         n = rej["reason"].split()[0]
         diag[n] = diag.get(n, 0) + 1
-    rep.cov["ackpolicy_diagnostics"] = {"runs": r["runs"], "runs_with": diag}
-    vlib.log("  AckPolicy diagnostics over %d runs (runs in which the clause does not hold): %s" % (r["runs"], diag))
+    rep.cov["ackpolicy_diagnostics"] = {"runs": rd["runs"], "runs_in_which_the_clause_does_not_hold": diag}
+    vlib.log("  AckPolicy diagnostics over %d runs (runs in which the clause does not hold): %s" % (rd["runs"], diag))
     sigs = {}
     for sig, _, _ in rep.violations:
         if "/%s/" % COMP in sig:
